@@ -4,6 +4,8 @@ package gen
 import (
 	"fmt"
 	"math/rand"
+	"sort"
+	"strings"
 	"time"
 
 	"verif/harness/model"
@@ -110,6 +112,9 @@ type RouteOpt struct {
 	Timers     bool     // generate timer overrides
 	Intervals  []string // names of time intervals that may be referenced
 	RootTimers bool
+	// UniqueSiblings avoids sibling routes with identical matcher sets: their route keys (and
+	// hence group keys and notification-log entries) coincide by design, which is outside every property.
+	UniqueSiblings bool
 }
 
 // RouteTree draws a routing tree.
@@ -143,6 +148,7 @@ func children(r *rand.Rand, o RouteOpt, depth int) []*model.RouteSpec {
 		n = 1 + r.Intn(o.MaxFanout)
 	}
 	var out []*model.RouteSpec
+	seen := map[string]bool{}
 	for i := 0; i < n; i++ {
 		c := &model.RouteSpec{}
 		if r.Intn(3) > 0 {
@@ -196,6 +202,18 @@ func children(r *rand.Rand, o RouteOpt, depth int) []*model.RouteSpec {
 		default:
 			c.Matchers = Matchers(r, 2)
 		}
+		if o.UniqueSiblings {
+			sig := matcherSig(c)
+			for tries := 0; seen[sig] && tries < 20; tries++ {
+				c.Match, c.MatchRE = nil, nil
+				c.Matchers = Matchers(r, 2)
+				sig = matcherSig(c)
+			}
+			if seen[sig] {
+				continue
+			}
+			seen[sig] = true
+		}
 		c.Continue = r.Intn(3) == 0
 		if r.Intn(5) == 0 {
 			c.Labels = map[string]string{Pick(r, []string{"rl1", "rl2"}): fmt.Sprintf("v%d", r.Intn(3))}
@@ -211,4 +229,19 @@ func children(r *rand.Rand, o RouteOpt, depth int) []*model.RouteSpec {
 		out = append(out, c)
 	}
 	return out
+}
+
+func matcherSig(c *model.RouteSpec) string {
+	var parts []string
+	for k, v := range c.Match {
+		parts = append(parts, model.Matcher{Name: k, Op: "=", Value: v}.String())
+	}
+	for k, v := range c.MatchRE {
+		parts = append(parts, model.Matcher{Name: k, Op: "=~", Value: v}.String())
+	}
+	for _, m := range c.Matchers {
+		parts = append(parts, m.String())
+	}
+	sort.Strings(parts)
+	return strings.Join(parts, ",")
 }
